@@ -41,7 +41,10 @@ def run(run):
         cat = [e for e in cat if e.config() == run.only.get("config")]
     run.log("catalogue: %d objects" % len(cat))
     events, owners = c01.collect(run, cat, rng, quick, object_events)
-    mism = tv.validate(run, "Trace_BlockCode", events, name="TV C03", timeout=3000, count_trace=False, heap="12g")
+    mism = tv.validate_sharded(run, "Trace_BlockCode", events, (lambda e: e["ev"] == "Construct"), name="TV C03", max_events=40, jobs=10, heap="6g",
+                                cost=(lambda e: max(1, 2 ** max(0, len(e.get("G", [])) - 8)) if e["ev"] == "Construct" else 1))
+    run.traces -= 1        # traces are counted per constructed object below
+    run.extra["objects_whose_distance_was_not_decided"] = len([p for p in getattr(run, "last_prints", []) if isinstance(p, list) and p and p[0] == "NOTCOVERED"])
     run.traces += len(cat)
     c03_clauses = None
     seen = set()
